@@ -188,6 +188,33 @@ def run(chk: Check):
             chk.fail("diff_log_demean_filter is not the de-meaned first difference of the log (same length)", case)
         if not (abs(float(np.mean(c))) <= ctol * max(1.0, float(np.max(np.abs(c))))):
             chk.fail(f"diff_log_demean_filter output has mean {float(np.mean(c))!r}, not zero", case)
+    # what a caller may have done before: handed one of the filters a series it cannot take (a quantity that hit zero, a negative level) and caught
+    # or ignored the outcome. Nothing of that may linger in the process: numpy's error handling is as it was, and the admissible calls that
+    # follow (the moment summary of constant / linear / alternating series divides 0 by 0 internally) behave as ever
+    err0 = np.geterr()
+    for bad_series in (np.array([1.0, 2.0, 0.0, 3.0, 4.0, 5.0, 6.0, 7.0, 8.0]), np.array([3.0, -1.0, 2.0, 5.0, 1.0, 2.0, 3.0, 4.0, 5.0]), np.zeros(12)):
+        for fn in (log_and_hp_filter, diff_log_demean_filter, hp_cycle_lamb1600_filter):
+            with warnings.catch_warnings():
+                warnings.simplefilter("ignore")
+                try:
+                    fn(bad_series.copy())
+                except Exception:  # noqa: BLE001  (an inadmissible series: whatever happens is the caller's business)
+                    pass
+            chk.count("after_an_inadmissible_series")
+            if np.geterr() != err0:
+                case = {"case": {"kind": "errstate", "filter": fn.__name__, "series": bad_series.tolist()}}
+                try:
+                    with warnings.catch_warnings():
+                        warnings.simplefilter("ignore")
+                        m = get_mom_ts_1d(np.full(20, 3.0))
+                    if len(m) != 18 or not np.all(np.isfinite(m)):
+                        chk.fail(f"after {fn.__name__} was handed a series with a non-positive value, the moment summary of a constant series is not 18 finite numbers: {m.tolist()}", case)
+                    else:
+                        chk.disagree(f"{fn.__name__} left numpy's error handling changed for the rest of the process: {np.geterr()} (was {err0})", case)
+                except Exception as e:  # noqa: BLE001
+                    chk.fail(f"after {fn.__name__} was handed a series with a non-positive value (numpy error handling left at {np.geterr()}), the moment summary of a "
+                             f"constant series raises {type(e).__name__}: {str(e)[:80]} instead of being 18 finite numbers", case)
+                np.seterr(**err0)
     # moment summary: finite, and equal to the reference moments
     for _ in range(60 if chk.tier == "quick" else 800):
         n = rng.choice([8, 9, 12, 30, 200, 2000, rng.randint(8, 2000)])
